@@ -63,6 +63,7 @@ contract(
         ("sum", lambda x, result: (result[0] + result[1] == x) if _finite(x) else (result[0] is x and result[1] == 0)),
         ("whole-is-integer", lambda x, result: is_int_valued(result[0]) if _finite(x) else True),
         ("fraction-in-[-1/2,1/2]", lambda x, result: And(result[1] >= -0.5, result[1] <= 0.5)),
+        ("ties keep the sign of x (strongest postcondition): +1/2 only for x > 0, -1/2 only for x < 0", lambda x, result: And(Implies(result[1] == 0.5, x > 0), Implies(result[1] == -0.5, x < 0)) if _finite(x) else True),
     ],
     returns=lambda x: Tup(Real(), Real()) if _finite(x) else Value((x, 0)),
 )
@@ -414,7 +415,11 @@ contract(
                 result[1].y >= -0.5,
                 result[1].y <= 0.5,
             ),
-        )
+        ),
+        (
+            "ties keep the sign of the input (strongest postcondition)",
+            lambda t, result: And(Implies(result[1].x == 0.5, t.x > 0), Implies(result[1].x == -0.5, t.x < 0), Implies(result[1].y == 0.5, t.y > 0), Implies(result[1].y == -0.5, t.y < 0)),
+        ),
     ],
     returns=lambda t: Tup(XY_REAL, XY_REAL),
 )
